@@ -41,6 +41,7 @@ var c06Commands = []struct {
 	{"replace all 'a' or ('b' = v) with v", true},                         // bound for some matches only
 	{"replace all at least 1 ('b' = v) named grp with grp", true},         // a map-valued name contributes nothing
 	{"replace all 'b' (maybe (digit = d)) with d", true},                  // capture inside a skipped optional
+	{"replace all at least 1 'b' with 'XX'", true},                       // runs of 1, 2, 3: longer, same, shorter - changes that can sum to zero
 	{"find all 'ab'", false},
 	{"find all at least 1 letter", false},
 }
@@ -144,11 +145,14 @@ func c06BigLayout(r *drv.Run, i int, rng *gen.Rng) *c06Layout {
 	gaps := []int{16384, 32768, 65536, 131072}
 	filler := []byte("xyz \nq")
 	var b []byte
-	nm := 1 + rng.Intn(3)
+	nm := 2 * (1 + rng.Intn(2))
 	for k := 0; k <= nm; k++ {
 		g := gaps[rng.Intn(len(gaps))] + rng.Intn(3) - 1
 		if rng.Chance(1, 2) {
 			g = gaps[rng.Intn(len(gaps))] // exact multiples half of the time
+		}
+		if k == 0 && i%8 == 5 {
+			g = 1 << 20 // a file beyond a mebibyte now and then
 		}
 		if k == nm && rng.Chance(1, 4) {
 			g = 0 // match at EOF
@@ -158,6 +162,9 @@ func c06BigLayout(r *drv.Run, i int, rng *gen.Rng) *c06Layout {
 		}
 		if k < nm {
 			b = append(b, 'a', 'b')
+			if k%2 == 1 {
+				b = append(b, 'b', 'b') // "abbb": for the b-run command the changes in length then sum to zero
+			}
 		}
 	}
 	name := "in0.txt"
@@ -192,7 +199,7 @@ func C06(r *drv.Run) {
 	if !quick(r) {
 		nbig = 240
 	}
-	bigCmds := []int{0, 1, 3, 12}
+	bigCmds := []int{0, 1, 3, 12, 20}
 	nlink := 16
 	r.Exec(n+nbig+nlink, drv.ExecOpts{Batch: 25}, func(i int) *drv.Item {
 		rng := gen.Derive(r.Seed, "C06", i)
